@@ -725,15 +725,17 @@ Lemma L_has_iff : forall s,
 Proof.
   intros s.
   destruct (queries_individual s) as (Q1 & Q2 & Q3 & Q4 & Q5 & Q6 & Q7 & Q8 & _).
-  repeat split; intros b v.
-  1,2: rewrite Q2; intros [= <-] [= <-]; cbn; [discriminate|contradiction].
-  1,2: rewrite Q3; intros [= <-] Hv; rewrite (root_directory_text s v Hv); apply negb_is_nil_iff.
-  1,2: rewrite Q1; intros [= <-] Hv; rewrite (root_path_text s v Hv); apply negb_is_nil_iff.
-  1,2: intros Hn; rewrite Q4, (rel_nonempty_no_nul s Hn); intros [= <-] Hv;
-       rewrite (L_relative_path_eq s v Hv); apply negb_is_nil_iff.
-  1,2: rewrite Q5; intros [= <-] Hv; unfold std_has_parent_path;
-       rewrite <- (L_parent_path_equiv s v Hv), path_is_empty_as_path; apply negb_is_nil_iff.
-  1,2: rewrite Q6; intros [= <-] Hv; rewrite (L_filename_eq s v Hv); apply negb_is_nil_iff.
-  1,2: rewrite Q7; intros [= <-] Hv; rewrite (L_stem_eq s v Hv); apply negb_is_nil_iff.
-  1,2: rewrite Q8; intros [= <-] Hv; rewrite (L_extension_eq s v Hv); apply negb_is_nil_iff.
+  assert (P : forall (b : bool) (l : list Z), b = negb (is_nil l) -> (b = true <-> l <> [])).
+  { intros b l ->. apply negb_is_nil_iff. }
+  split; [|split; [|split; [|split; [|split; [|split; [|split]]]]]]; intros b v.
+  - rewrite Q2. intros [= <-] [= <-]. cbn. split; [discriminate|contradiction].
+  - rewrite Q3. intros [= <-] Hv. rewrite (root_directory_text s v Hv). now apply P.
+  - rewrite Q1. intros [= <-] Hv. rewrite (root_path_text s v Hv). now apply P.
+  - intros Hn. rewrite Q4, (rel_nonempty_no_nul s Hn). intros [= <-] Hv.
+    rewrite (L_relative_path_eq s v Hv). now apply P.
+  - rewrite Q5. intros [= <-] Hv. apply P. unfold std_has_parent_path.
+    now rewrite <- (L_parent_path_equiv s v Hv), path_is_empty_as_path.
+  - rewrite Q6. intros [= <-] Hv. rewrite (L_filename_eq s v Hv). now apply P.
+  - rewrite Q7. intros [= <-] Hv. rewrite (L_stem_eq s v Hv). now apply P.
+  - rewrite Q8. intros [= <-] Hv. rewrite (L_extension_eq s v Hv). now apply P.
 Qed.
